@@ -5,11 +5,14 @@ import (
 	"sort"
 	"strconv"
 	"strings"
+
+	sdk "github.com/cosmos/cosmos-sdk/types"
 	"time"
 
 	stakingtypes "github.com/cosmos/cosmos-sdk/x/staking/types"
 
 	channeltypes "github.com/cosmos/ibc-go/v10/modules/core/04-channel/types"
+	host "github.com/cosmos/ibc-go/v10/modules/core/24-host"
 
 	providertypes "github.com/cosmos/interchain-security/v7/x/ccv/provider/types"
 )
@@ -28,6 +31,7 @@ type CInfo struct {
 	XferOpen    bool
 	RelayMode   int // 0 prompt, 1 batchy, 2 laggy
 	Hostile     bool
+	StarveAt    int // step from which the relayer delivers nothing to this consumer (0: never)
 }
 
 // Prop is a governance proposal in flight.
@@ -74,6 +78,9 @@ func (w *World) trackTxOutcomes(outs []TxOutcome) {
 					ci.WantLive = true
 					ci.HandshakeAt = w.Step + 2 + w.Rnd.Intn(1+w.Cfg.HandshakeDelayMax)
 					ci.RelayMode = w.Rnd.Intn(3)
+					if w.Cfg.StarveSome && len(w.Shadow.Consumers) == 0 {
+						ci.StarveAt = 25 + w.Rnd.Intn(30)
+					}
 				}
 				w.Shadow.Consumers = append(w.Shadow.Consumers, ci)
 				w.Shadow.ByID[id] = ci
@@ -175,12 +182,12 @@ func (w *World) relayToProvider() []TxSpec {
 		if l.C == nil || l.C.Halted {
 			continue
 		}
-		if len(l.ToProv) == 0 && len(l.AcksToProv) == 0 && len(l.Timeouts) == 0 {
+		if len(l.ToProv) == 0 && len(l.AcksToProv) == 0 && len(l.Timeouts) == 0 && !l.CloseConfirm {
 			continue
 		}
 		ci := w.Shadow.ByID[id]
 		// schedule: prompt links always relay; others with some probability
-		if ci != nil && ci.RelayMode != 0 && w.Rnd.Intn(3) != 0 {
+		if ci != nil && ci.RelayMode != 0 && w.Rnd.Intn(3) != 0 && len(l.Timeouts) == 0 && !l.CloseConfirm {
 			continue
 		}
 		if clientStatus(w.P, l.ProvClient) != "Active" {
@@ -189,12 +196,23 @@ func (w *World) relayToProvider() []TxSpec {
 		pk := w.relayBatch(l, &l.ToProv, 1+w.Rnd.Intn(4), l.C, w.P, "relay-recv:"+id)
 		ak := w.relayBatch(l, &l.AcksToProv, 1+w.Rnd.Intn(8), l.C, w.P, "relay-ack:"+id)
 		to := w.timeoutSpecs(l, w.P, l.C, l.ProvClient)
-		if len(pk)+len(ak)+len(to) == 0 {
+		var cl []TxSpec
+		if l.CloseConfirm && l.ProvChan != "" {
+			proof, ph := proofAt(l.C, host.ChannelKey("consumer", l.ConsChan))
+			ll := l
+			cl = append(cl, TxSpec{Signer: racct, Msgs: []sdk.Msg{channeltypes.NewMsgChannelCloseConfirm("provider", l.ProvChan, proof, ph, racct.Addr.String())}, Tag: "relay-close:" + id,
+				OnResult: func(o TxOutcome) {
+					ll.CloseConfirm = false
+					ll.CloseDone = true
+				}})
+		}
+		if len(pk)+len(ak)+len(to)+len(cl) == 0 {
 			continue
 		}
 		if ups := w.updateClientMsgs(w.P, l.ProvClient, l.C); len(ups) > 0 {
 			specs = append(specs, TxSpec{Signer: racct, Msgs: ups, Tag: "relay-update:" + id})
 		}
+		specs = append(specs, cl...)
 		specs = append(specs, pk...)
 		specs = append(specs, ak...)
 		specs = append(specs, to...)
@@ -276,7 +294,24 @@ func (w *World) ConsumersStep() {
 		if ci != nil {
 			mode = ci.RelayMode
 		}
+		if l.Starved {
+			mode = 3
+		} else if ci != nil && ci.StarveAt > 0 && w.Step >= ci.StarveAt {
+			l.Starved = true
+			w.Op("relayer starves consumer %s from now on", l.CID)
+			mode = 3
+		}
 		switch mode {
+		case 3: // nothing is delivered any more (packets will time out)
+			n, a = 0, 0
+			// timeouts are discovered when the relayer looks at the queue
+			w.relayBatch(l, &l.ToCons, 0, w.P, l.C, "relay-recv")
+			for _, f := range l.ToCons {
+				if !f.Done && f.Packet.TimeoutTimestamp != 0 && uint64(w.Now.UnixNano()) >= f.Packet.TimeoutTimestamp {
+					f.Done, f.TimedOut = true, true
+					l.Timeouts = append(l.Timeouts, &InFlight{Packet: f.Packet, Height: f.Height, SentStep: f.SentStep})
+				}
+			}
 		case 0:
 			n, a = 1+w.Rnd.Intn(3), 4
 		case 1: // batchy: deliver everything every few steps
